@@ -37,6 +37,7 @@ void pbt_generate(Rng& r, int size, Case& c) {
   long mask = r.chance(75) ? FULLMASK : (long)r.below((uint64_t)FULLMASK + 1);
   c.add("table", mask, (long)r.below(2));
   size_t want = (size_t)r.below((uint64_t)std::min(8, size) + 1);
+  if (r.chance(2)) { c.add("noargv"); want = 0; }
   std::vector<std::string> toks;
   static const int W[] = {20, 8, 10, 6, 8, 8, 7, 5, 4, 3, 3, 10, 2};
   while (toks.size() < want) {
@@ -79,10 +80,11 @@ bool pbt_nontrivial(const Ctx& ctx) { return ctx.has("cluster_followed") || ctx.
 // ---------------------------------------------------------------- interpreter
 void pbt_run(const Case& c, Ctx& ctx) {
   long mask = FULLMASK, mode = 0;
-  std::vector<std::string> argv;
+  std::vector<std::string> argv; bool emptyVector = false;
   argv.push_back("prog");
   for (const Op& op : c.ops) {
     if (op.name == "table") { mask = op.a[0] & FULLMASK; mode = op.a[1]; if (mask == 0) mask = FULLMASK; }
+    else if (op.name == "noargv") emptyVector = true;   // not even a program name: the empty argument vector
     else if (op.name == "tok") {
       if (argv.size() > MAXTOK) { ctx.count("skipped"); continue; }
       argv.push_back(std::string(op.data.c_str()));  // cut at the first NUL: argv elements are C strings
@@ -116,6 +118,7 @@ void pbt_run(const Case& c, Ctx& ctx) {
   }
 
   // exactly sized blocks
+  if (emptyVector && argv.size() == 1) { argv.clear(); ctx.label("empty_argument_vector"); }   // argc == 0: nothing to report, nothing to read (the block of the vector has size 0)
   int argc = (int)argv.size();
   char** av = (char**)malloc(sizeof(char*) * (size_t)argc);
   for (int i = 0; i < argc; ++i) { av[i] = (char*)malloc(argv[(size_t)i].size() + 1); memcpy(av[i], argv[(size_t)i].c_str(), argv[(size_t)i].size() + 1); }
